@@ -97,7 +97,7 @@ def C06_available_Full : Prop := ∀ k, k ≠ .beforeExecute → describeLast k 
 theorem C06_available_partial (k : Kind) (h : k = .query ∨ k = .statusSelect) : describeLast k = .ofResult := by
   rcases h with rfl | rfl <;> rfl
 
-/-- known finding `C06/describe-seeded-query`: for `RANDOM(seed)` / `SAMPLE … SEED`, `_last_sql` is
+/-- known finding `C06/describe-seeded-query`: for `RANDOM(seed)`, `_last_sql` is
     `SELECT setseed(..); <query>` and DESCRIBE describes the `setseed` call. -/
 theorem finding_C06_describe_seeded_query : describeLast .seededQuery = .ofOther := rfl
 
